@@ -20,9 +20,12 @@ def write_cg_fragment(R, sub, names, desc):
     return molgen.write_base(R, sub, names, tokens=tokens)[1:-1]
 
 
-def group_level(R, base, names, prefix, labels, kinds=('$', '><')):
+def group_level(R, base, names, prefix, labels, kinds=('$', '><'), p_share=0.0):
     """group the nodes of `base` (edges carry 'order') into connected groups.
-    returns (upper graph, upper names, fragment block of this level, owner map) or None"""
+    A crossing edge is written as a labelled descriptor pair, or - with probability p_share - by
+    SHARING its end node b: b is copied into the other group (with all of b's edges into that
+    group) and both copies carry [!x].
+    returns (upper graph, upper names, fragment block of this level, owner map, #shared) or None"""
     nodes = list(base.nodes)
     k = R.randint(1, len(nodes))
     seeds = R.sample(nodes, k)
@@ -30,58 +33,91 @@ def group_level(R, base, names, prefix, labels, kinds=('$', '><')):
     while len(owner) < len(nodes):
         c = [(a, b) for a in sorted(owner) for b in sorted(base[a]) if b not in owner]
         if not c:
-            return None      # disconnected base graph (order-0 only ...) cannot happen for cut strings
+            return None
         a, b = R.choice(c)
         owner[b] = owner[a]
     up = nx.Graph()
     up.add_nodes_from(range(k))
+
+    def bump(ga, gb):
+        if up.has_edge(ga, gb):
+            up.edges[ga, gb]['order'] += 1
+        else:
+            up.add_edge(ga, gb, order=1)
     desc = defaultdict(lambda: defaultdict(list))
-    for a, b, o in sorted(base.edges(data='order')):
-        ga, gb = owner[a], owner[b]
-        if ga == gb:
+    subs = {g: base.subgraph([n for n in nodes if owner[n] == g]).copy() for g in range(k)}
+    subnames = dict(names)
+    crossing = [(a, b, o) for a, b, o in sorted(base.edges(data='order')) if owner[a] != owner[b]]
+    if any(o == 0 for _, _, o in crossing):
+        return None
+    handled = set()
+    copies = {}
+    nshared = 0
+    R.shuffle(crossing)
+    for (a, b, o) in crossing:
+        if (a, b) in handled or not R.chance(p_share):
             continue
-        if o == 0:
-            return None
+        u, v = (a, b) if R.chance(0.5) else (b, a)
+        F, G = owner[u], owner[v]
+        if (v, F) in copies:
+            continue
+        us = [x for x in base[v] if owner[x] == F]
+        if any(tuple(sorted((x, v))) in handled for x in us):
+            continue
+        cp = 100000 + len(copies)
+        copies[(v, F)] = cp
+        subnames[cp] = names[v]
+        subs[F].add_node(cp)
+        for x in us:
+            subs[F].add_edge(x, cp, order=base.edges[x, v]['order'])
+            handled.add(tuple(sorted((x, v))))
+        lab = next(labels)
+        desc[F][cp].append('[!%s]' % lab)
+        desc[G][v].append('[!%s]' % lab)
+        bump(F, G)
+        nshared += 1
+    for (a, b, o) in crossing:
+        if tuple(sorted((a, b))) in handled:
+            continue
+        ga, gb = owner[a], owner[b]
         lab = next(labels)
         kind = R.choice(kinds)
         da, db = (('[$%s]' % lab,) * 2) if kind == '$' else ('[>%s]' % lab, '[<%s]' % lab)
         desc[ga][a].append(SY[o] + da)
         desc[gb][b].append(SY[o] + db)
-        if up.has_edge(ga, gb):
-            up.edges[ga, gb]['order'] += 1
-        else:
-            up.add_edge(ga, gb, order=1)
+        bump(ga, gb)
     if any(o > 4 for _, _, o in up.edges(data='order')):
         return None
     upnames = {g: '%s%d' % (prefix, g) for g in range(k)}
     defs = []
     for g in range(k):
-        sub = base.subgraph([n for n in nodes if owner[n] == g]).copy()
-        defs.append('#%s=%s' % (upnames[g], write_cg_fragment(R, sub, names, desc[g])))
+        defs.append('#%s=%s' % (upnames[g], write_cg_fragment(R, subs[g], subnames, desc[g])))
     R.shuffle(defs)
-    return up, upnames, '{' + ','.join(defs) + '}', owner
+    return up, upnames, '{' + ','.join(defs) + '}', owner, nshared
 
 
-def add_levels(R, info, nlevels):
+def add_levels(R, info, nlevels, p_share=0.0):
     """info from molgen.build_cgsmiles -> (full multi-level string, list of level blocks top-down,
-    number of groups per level) or None"""
+    number of groups per level, number of shared nodes) or None"""
     base = info['base']
     names = {f: info['names'][f] for f in base.nodes}
     labels = molgen.label_stream('L')
     levels = []
     groups = []
+    shared = 0
     cur, curnames = base, names
     for lv in range(nlevels):
-        r = group_level(R, cur, curnames, 'G%d_' % lv, labels)
+        r = group_level(R, cur, curnames, 'G%d_' % lv, labels, p_share=p_share)
         if r is None:
             return None
-        cur, curnames, block, _owner = r
+        cur, curnames, block, _owner, nsh = r
+        shared += nsh
         levels.append(block)
         groups.append(len(cur))
     top = molgen.write_base(R, cur, curnames)
     blocks = list(reversed(levels))
     s = top + '.' + '.'.join(blocks) + '.' + info['frag_block']
-    return s, blocks, groups
+    return s, blocks, groups, shared
 
 
 # ----------------------------------------------------------------------------------------
@@ -158,9 +194,26 @@ def gen_fragset_string(R, tier, all_atom=None):
             gram.interpret(ast)
         except gram.Invalid:
             return None
-        base = gram.render(ast)
         feats = {'base:' + style}
         names = sorted({nd.name for nd in gram.all_nodes(ast)})
+        if R.chance(0.25):
+            # virtual (fragment-less) nodes attached by order-0 edges only
+            feats.add('virtual_node')
+            for _ in range(R.choice([1, 1, 2])):
+                v = gram.Node(R.choice(['V', 'W']))
+                where = R.choice(['first', 'last', 'branch'])
+                if where == 'first':
+                    v.nxt = 0
+                    ast.insert(0, v)
+                elif where == 'last':
+                    ast[-1].nxt = 0
+                    ast.append(v)
+                else:
+                    host = R.choice(list(gram.all_nodes(ast)))
+                    if host.name in ('V', 'W'):
+                        continue
+                    host.branches.insert(R.randint(0, len(host.branches)), [0, [v], None, None])
+        base = gram.render(ast)
     if all_atom is None:
         all_atom = R.chance(0.6)
     defs = gen_fragset(R, names, all_atom)
@@ -196,11 +249,13 @@ def gen_cut_string(R, tier, min_frags=1, with_levels=0, classes=None):
     case = dict(input=s, last_all_atom=True, legacy=True, kind='cut', dedicated=True, model=m.to_json(),
                 nfr=nfr, nlevels=1, two_level=s)
     if with_levels:
-        r = add_levels(R, info, with_levels)
+        r = add_levels(R, info, with_levels, p_share=R.choice([0.0, 0.0, 0.3, 0.6]))
         if r is None:
             return None
-        s2, blocks, groups = r
+        s2, blocks, groups, nshared = r
         case.update(input=s2, kind='levels', nlevels=1 + with_levels, groups=groups)
+        if nshared:
+            feats.add('shared_node_at_coarse_level')
         feats.add('levels:%d' % (1 + with_levels))
         if any(g >= 2 for g in groups):
             feats.add('multi_group_level')
